@@ -74,3 +74,42 @@ broadcast proof fn lemma_resolve_keeps_arity(a: ast::Aidl, b: ast::Aidl, imports
         assert(arity_ok(types_of(a)[i]));
     }
 }
+
+// ---------- the `resolved` set against the kinds the walk left behind (C06 coupling) ----------
+spec fn key_in(k: TypeKind, r: Set<String>) -> bool {
+    match resolved_key(k) { Some(key) => r.contains(string_of(key)), None => true }
+}
+// why a member of `resolved` is there: it is the key of this kind, or one of the two java.lang names for a keyword type
+spec fn source_of(k: TypeKind, s: String) -> bool {
+    resolved_key(k) == Some(s@)
+    || ((k is String || k is CharSequence) && (s@ == "java.lang.String"@ || s@ == "java.lang.CharSequence"@))
+}
+spec fn has_source(ks: Seq<TypeKind>, s: String) -> bool {
+    exists |i: int| 0 <= i < ks.len() && source_of(#[trigger] ks[i], s)
+}
+// `resolved` holds the key of every listed kind, and nothing that no listed kind accounts for
+spec fn coupled(ks: Seq<TypeKind>, r: Set<String>) -> bool {
+    &&& forall |i: int| 0 <= i < ks.len() ==> key_in(#[trigger] ks[i], r)
+    &&& forall |s: String| #[trigger] r.contains(s) ==> has_source(ks, s)
+}
+proof fn lemma_coupled_step(ks: Seq<TypeKind>, r: Set<String>, k: TypeKind, r2: Set<String>)
+    requires coupled(ks, r), resolved_step(k, r, r2)
+    ensures coupled(ks.push(k), r2)
+{
+    broadcast use axiom_string_of;
+    broadcast use axiom_string_ext;
+    let ks2 = ks.push(k);
+    assert(r.subset_of(r2));
+    assert forall |i: int| 0 <= i < ks2.len() implies key_in(#[trigger] ks2[i], r2) by {
+        if i < ks.len() { assert(ks2[i] == ks[i]); assert(key_in(ks[i], r)); }
+    }
+    assert forall |s: String| #[trigger] r2.contains(s) implies has_source(ks2, s) by {
+        if r.contains(s) {
+            let i = choose |i: int| 0 <= i < ks.len() && source_of(#[trigger] ks[i], s);
+            assert(ks2[i] == ks[i]);
+        } else {
+            assert(ks2[ks.len() as int] == k);
+            assert(source_of(k, s));
+        }
+    }
+}
